@@ -2,6 +2,7 @@ package c15
 
 import (
 	"fmt"
+	"os"
 	"strings"
 	"sync"
 	"time"
@@ -462,6 +463,12 @@ func serviceOrder(r *h.Run, idx int) {
 	tagOf := func(g packet.Generic) string {
 		switch v := g.(type) {
 		case *packet.Publish:
+			if v.Dup {
+				// a retransmission, not the execution of a command (the client's
+				// replay of its session after CONNACK can pick up a publish the
+				// dispatcher has just recorded and send it a second time)
+				return ""
+			}
 			return strings.TrimPrefix(v.Message.Topic, "svc/")
 		case *packet.Subscribe:
 			return strings.TrimPrefix(v.Subscriptions[0].Topic, "svc/")
@@ -492,7 +499,7 @@ func serviceOrder(r *h.Run, idx int) {
 		var k int
 		fmt.Sscanf(parts[1], "%d", &k)
 		if l, seen := last[parts[0]]; seen && k <= l {
-			r.Violation("service/command-order", fmt.Sprintf("service order #%d: command %s of caller %s was executed after #%d", idx, t, parts[0], l), nil)
+			r.Violation("service/command-order", fmt.Sprintf("service order #%d: command %s of caller %s was executed after #%d", idx, t, parts[0], l), map[string]interface{}{"event_log_tail": srv.Log.Dump(400)})
 			break
 		}
 		last[parts[0]] = k
@@ -556,8 +563,14 @@ func serviceOrderDrops(r *h.Run, idx int) {
 	s.Start(ch.Config(srv, "c15-svcdrop", true))
 	// the end marker is a command like the others: re-issued until one arrives
 	arrived := func() (nums []int, end bool) {
+		cut := map[string]bool{}
 		for _, e := range srv.Log.Events() {
-			if e.Kind != "srecv" {
+			if e.Kind == "peer-close" {
+				// the scripted broker has ended this connection: bytes that were
+				// already in flight and are read afterwards were not received by it
+				cut[e.Who] = true
+			}
+			if e.Kind != "srecv" || cut[e.Who] {
 				continue
 			}
 			if pp, ok := e.Pkt.(*packet.Publish); ok && strings.HasPrefix(pp.Message.Topic, "svc/") {
@@ -606,6 +619,12 @@ func serviceOrderDrops(r *h.Run, idx int) {
 }
 
 func clientPart(r *h.Run) {
+	if os.Getenv("C15_DEBUG_SVC") != "" { // debugging aid: only the service command order part, many times
+		for rep := 0; rep < 60; rep++ {
+			h.Parallel(80, 8, func(i int) { serviceOrder(r, i) })
+		}
+		return
+	}
 	nc := r.Pick(150, 3000)
 	h.Parallel(nc, 16, func(i int) { clientResend(r, i) })
 	r.Count("client_resend_runs", int64(nc))
